@@ -954,7 +954,7 @@ func (p *Printer) arithmExprRecurse(expr ArithmExpr, compact, spacePlusMinus boo
 		} else {
 			if spacePlusMinus {
 				switch expr.Op {
-				case Plus, Minus:
+				case Plus, Minus, Inc, Dec:
 					p.space()
 				}
 			}
